@@ -72,12 +72,16 @@ fn main() {
     let args: Vec<String> = std::env::args().collect();
     let label = args.get(1).cloned().unwrap_or_default();
     let v = |xs: &[&str]| xs.iter().map(|s| s.to_string()).collect::<Vec<String>>();
-    // ---- (1) text updates: every file of <= 4 lines over {a,b}, LF/CRLF, with/without trailing newline; up to 2 hunks ----
+    // ---- (1) text updates: every file of <= 5 lines over {a,b}, LF/CRLF, with/without trailing newline; up to 2 hunks with contexts of <= 3 lines ----
     if label.contains("text_updates") || label.contains("apply_hunks") {
         let sides: Vec<Vec<String>> = vec![v(&[]), v(&["a"]), v(&["b"]), v(&["a", "b"]), v(&["b", "a"]), v(&["a", "a"])];
+        // contexts also of three lines (a context that starts with a repeated line, inside a longer run of that line, is where a
+        // search that skips lines it already compared goes wrong)
+        let mut contexts: Vec<Vec<String>> = sides.clone();
+        for c in 0..8usize { contexts.push((0..3).map(|i| if (c >> i) & 1 == 1 { "b".to_string() } else { "a".to_string() }).collect()); }
         let mut hunk_list: Vec<(Vec<String>, Vec<String>)> = Vec::new();
-        for b in &sides { for a in &sides { if !(b.is_empty() && a.is_empty()) { hunk_list.push((b.clone(), a.clone())); } } }
-        for n in 0..=4usize { for code in 0..2usize.pow(n as u32) { for crlf in [false, true] { for trailing in [true, false] {
+        for b in &contexts { for a in &sides { if !(b.is_empty() && a.is_empty()) { hunk_list.push((b.clone(), a.clone())); } } }
+        for n in 0..=5usize { for code in 0..2usize.pow(n as u32) { for crlf in [false, true] { for trailing in [true, false] {
             let lines: Vec<&str> = (0..n).map(|i| if (code >> i) & 1 == 1 { "b" } else { "a" }).collect();
             if crlf && n < 2 { continue; }
             let nl = if crlf { "\r\n" } else { "\n" };
@@ -106,9 +110,11 @@ fn main() {
     single.push(upd("a.txt", Some("c.txt"), &["x"], &["y"])); single.push(upd("a.txt", Some("d/b.txt"), &["x"], &["x"]));
     let mut case = 0u64;
     for state in 0..8usize {       // which of the three files exist (content "x\n")
-        for i in 0..single.len() { for j in 0..single.len() { for k in (0..single.len()).map(Some).chain(std::iter::once(None)) {
-            if (i + 2 * j + k.unwrap_or(0)) % 3 != 0 && k.is_some() { continue; }       // thin out the triples
-            let ops: Vec<Op> = [Some(i), Some(j), k].iter().flatten().map(|x| single[*x].clone()).collect();
+        // patches of one, two and (thinned out) three operations
+        for i in 0..single.len() { for j in (0..single.len()).map(Some).chain(std::iter::once(None)) { for k in (0..single.len()).map(Some).chain(std::iter::once(None)) {
+            if j.is_none() && k.is_some() { continue; }
+            if (i + 2 * j.unwrap_or(0) + k.unwrap_or(0)) % 3 != 0 && k.is_some() { continue; }       // thin out the triples
+            let ops: Vec<Op> = [Some(i), j, k].iter().flatten().map(|x| single[*x].clone()).collect();
             case += 1;
             let root = base.join(format!("r{case}")); fs::create_dir_all(&root).unwrap();
             let mut model: BTreeMap<String, String> = BTreeMap::new();
